@@ -57,6 +57,12 @@ func (r *registry) fresh(hint string) string {
 	return fmt.Sprintf("k%d%s", n, h[1:])
 }
 
+func (r *registry) counter() int {
+	r.mu.Lock()
+	defer r.mu.Unlock()
+	return r.ctr
+}
+
 func (r *registry) freshConst(hint string, s Sort) Term {
 	n := r.fresh(hint)
 	r.declare(n, fmt.Sprintf("(declare-const %s %s)", n, s))
@@ -635,7 +641,11 @@ func (st *State) heap(fam string, dims []Sort, elem Sort) *HeapVer {
 
 func (st *State) store(fam string, dims []Sort, elem Sort, idx []Term, val Term) {
 	h := st.heap(fam, dims, elem)
-	st.recWriteH(h)
+	if len(idx) > 0 {
+		st.recWriteH(h, idx[0])
+	} else {
+		st.recWriteH(h)
+	}
 	if len(dims) == 0 {
 		// scalar global: new version is just an equality
 		n := newHeapConst(fam, dims, elem, "g")
@@ -676,13 +686,13 @@ func (st *State) havocAt(fam string, dims []Sort, elem Sort, idx []Term) {
 // havocRow makes one row (all elements under the first index) unknown.
 func (st *State) havocRow(fam string, dims []Sort, elem Sort, row Term) {
 	h := st.heap(fam, dims, elem)
-	st.recWriteH(h)
 	if len(dims) < 2 {
 		st.havocAt(fam, dims, elem, []Term{row})
 		return
 	}
 	fr := reg.fresh("row")
 	reg.declare(fr, fmt.Sprintf("(declare-const %s %s)", fr, arrSort(dims[1:], elem)))
+	st.recWriteH(h, row)
 	n := newHeapConst(fam, dims, elem, "h")
 	st.asserts = append(st.asserts, fmt.Sprintf("(= %s (store %s %s %s))", n.Name, h.Name, row.S, fr))
 	st.heaps[fam] = n
@@ -725,6 +735,7 @@ func (st *State) loadAt(a Addr, t types.Type) Val {
 	}
 	v, _ := unflatten(t, ls)
 	st.assumeWF(v, t)
+	st.assumeAllocated(v)
 	return v
 }
 
@@ -818,6 +829,9 @@ func (st *State) newRef(hint string) Term {
 	st.asserts = append(st.asserts, fmt.Sprintf("(= %s (store %s %s true))", n.Name, st.alloc.Name, r.S))
 	st.alloc = n
 	st.localRefs = append(st.localRefs, r)
+	if st.rec != nil {
+		st.rec.allocd[r.S] = true
+	}
 	return r
 }
 
@@ -833,8 +847,16 @@ func (st *State) famsWithPrefix(p string) []string {
 	return out
 }
 
-func (st *State) recWriteH(h *HeapVer) {
-	if st.rec != nil {
-		st.rec.written[h.Fam] = h
+// recWriteH records (during a loop dry run) that family h was written at first index idx
+// (idx.S == "" means: somewhere unknown).
+func (st *State) recWriteH(h *HeapVer, idx ...Term) {
+	if st.rec == nil {
+		return
 	}
+	st.rec.written[h.Fam] = h
+	if len(idx) == 0 || idx[0].S == "" {
+		st.rec.unstable[h.Fam] = true
+		return
+	}
+	st.rec.at[h.Fam] = append(st.rec.at[h.Fam], idx[0])
 }
